@@ -18,6 +18,7 @@ Record tab := mk_tab {
   t_dist_res : dy;             (* DISTANCE_RES as exact binary32 value *)
   t_rx : Z; t_ry : Z; t_rz : Z;      (* lens offsets as binary32 bit patterns (outputs only) *)
   t_block_ns : Z;              (* BLOCK_DURATION in ns *)
+  t_block_dur : dy;            (* BLOCK_DURATION as the exact binary64 value *)
   t_chan_ns : list Z;          (* CHAN_TSS in ns *)
   t_chan_azis : list dy        (* CHAN_AZIS as exact binary32 values *)
 }.
